@@ -48,6 +48,12 @@ def gen_case(rng, tier, index):
         L = len(ids)
         form = rng.choice(["list", "array", "tuple", f"2d:{R}x{len(cols)}"])
         return {"n": rng.choice([L, L + 1, 2 * L, rng.randint(1, 3 * L), rng.randint(L, 200)]), "wells": ids, "form": form}
+    if kind == "dups" and rng.random() < 0.5:
+        # n as a numpy integer (a count that comes out of numpy arithmetic: `R, C = numpy.array(plate.shape)`)
+        L = rng.randint(1, 26)
+        ids = _ids(L)
+        return {"n": {"__npint__": [rng.choice(["int64", "int32", "uint8", "intp"]), rng.randint(0, 100)]}, "wells": ids,
+                "form": rng.choice(["list", "array"])}
     if kind == "large":
         L = rng.randint(1, 26)
         n = rng.choice([rng.randint(301, 5000), rng.randint(5000, 100000), L * rng.randint(12, 400), L * rng.randint(12, 400) + 1])
